@@ -30,7 +30,7 @@ BAD_HP = ["5-1", "5-1,6-2", "5-1,5-1", "5-1,5-2,5-3", "5-0,5-1", "x-1,x-2", "5,6
 def gen_file_case(rng, quick=True):
     return {"kind": "file", "gen_seed": rng.randrange(1 << 40),
             "n_samples": rng.choice([1, 2, 2, 3]), "n_contigs": rng.choice([1, 2, 2, 3]),
-            "n_sites": rng.choice([4, 6, 8, 10] if quick else [4, 8, 12, 16]),
+            "n_sites": rng.choice([5, 8, 10, 12] if quick else [4, 8, 12, 16]),
             "n_files": rng.choice([1, 1, 2]),
             "only_snvs": rng.random() < 0.25,
             "split_contig": rng.random() < 0.12,
@@ -114,7 +114,7 @@ def _phase_call(rng, case, enc, g, ids, weird):
             call["GT"] = _fmt_gt(g, "/"); call["HP"] = rng.choice(BAD_HP); return call
         if w == "hp-missing-gt" and enc == "HP":
             call["GT"] = rng.choice(["./.", "./1", "0/."]); call["HP"] = f"{ids[0]}-1,{ids[0]}-2"; return call
-    block = rng.choice(ids)
+    block = ids[0] if rng.random() < 0.5 else rng.choice(ids)
     if enc == "PS":
         if het and r < 0.75:
             a, b = g if rng.random() < 0.5 else g[::-1]
